@@ -103,7 +103,7 @@ PROPS['C15'] = {
     'quick_s': 40, 'thorough_s': 900,
     'level_quick': 'exploration', 'level_thorough': 'exploration',
     'rule': 'one evaluation = one seeded program for the logging blackbox inside one simulator task: blackbox size and line length, n log calls '
-            '(serials, priorities, function names of 1..200 chars, tags, 23+ formats, arguments, virtual timestamps), dump(s) at seeded instants, then '
+            '(serials, priorities, function names of 1..200 chars, tags, 33 hand-written formats and, in half the runs, generated ones: 1..6 conversions in any order from 80 specifications - flags, width, precision, *, h hh l ll z t j L, d i o u x X c s p e f g a %% - with literal text in between; arguments, virtual timestamps), dump(s) at seeded instants, then '
             'either nothing (round-trip class, 40% of runs) or a fault program (60%): the k-th write of the dump short / failing with ENOSPC or EIO / lost; '
             'at rest: truncation to every length of the header region and seeded lengths beyond, "died after the k-th write", each ring header word set '
             'to boundary values (0, 1, 2^32-1, size/4 +-1, word_size +-1, 2*word_size, file size, the other pointer, mid-chunk) with the header hash '
